@@ -241,6 +241,8 @@ class ActionLink(Action):
             raise ValueError("Multiple source keys requires a compute function.")
 
         if self.apply_on == "parse":
+            if target in ([source] if isinstance(source, str) else source):
+                raise ValueError(f'Target "{target}" not allowed since it is a source of the same link.')
             # Check source
             link_actions = self.parser._links_group._group_actions
             existing_targets = {a.target[0] for a in link_actions}
